@@ -204,7 +204,10 @@ pub fn run(op: &str, a: &[&str]) -> Option<String> {
         }
         ("nb", [script]) => {
             let s = script.to_string();
-            guarded(move || run_script(&s))
+            guarded(move || {
+                let r = run_script(&s);
+                if r == "bad-op" { r } else { format!("ok {}", r) }
+            })
         }
         _ => return None,
     })
